@@ -735,6 +735,25 @@ func checkC12(c *core.Ctx) {
 		events = append(events, map[string]any{"e": "RT", "c": fmt.Sprintf("env:%v/%s/%s/%s", ec.System, ec.Sender, ec.Receiver, ec.Msg), "v": b2i(eq), "n": 1, "m": -1, "k": len(data)})
 		c.Add("evaluations", 1)
 	}
+	// messages nested in messages (PipeResult carrying a PipeResult ...): whatever the encoder accepts comes back equal.
+	// (The encoder refuses nesting beyond a limit; a refusal is C13's business, a silent difference would be C12's.)
+	for _, depth := range []int{1, 2, 5, 16, 31, 32, 33, 40} {
+		var m vivid.Message = newRmsg(5, "tell", 9, rand.New(rand.NewSource(int64(depth))))
+		for i := 0; i < depth; i++ {
+			m = &vivid.PipeResult{Id: fmt.Sprintf("p%d", i), Message: m}
+		}
+		snd, _ := actor.NewRef("10.1.1.1:7000", "/s")
+		rcv, _ := actor.NewRef("10.1.1.2:7000", "/r")
+		data, err := serialize.EncodeEnvelopWithRemoting(nil, mailbox.NewEnvelop(false, snd, rcv, m))
+		if err != nil {
+			c.Add("nested_messages_refused_by_the_encoder", 1)
+			continue
+		}
+		_, _, _, _, _, inst, derr := serialize.DecodeEnvelopWithRemoting(nil, data)
+		eq := derr == nil && semEqual(reflect.ValueOf(m), reflect.ValueOf(inst))
+		events = append(events, map[string]any{"e": "RT", "c": fmt.Sprintf("nested:%d", depth), "v": b2i(eq), "n": 1, "m": -1, "k": len(data)})
+		c.Add("evaluations", 1)
+	}
 	var traces []*Trace
 	for _, e := range events {
 		cls := "roundtrip"
@@ -867,6 +886,8 @@ func applyFault(data []byte, fault string, lenOffs []int) ([]byte, bool) {
 		}
 		binary.BigEndian.PutUint32(out[lenOffs[t-1]:], 65536)
 		return append(out, make([]byte, 70000)...), true
+	case "none":
+		return out, true
 	case "xorat":
 		var pos, mask int
 		fmt.Sscan(parts[1], &pos)
@@ -933,6 +954,21 @@ func baseEncoding(base string) (data []byte, lenOffs []int, mode string) {
 			return nil, nil, ""
 		}
 		return d, []int{0}, "handshake"
+	case strings.HasPrefix(base, "deep:"):
+		// a valid envelope whose message nests PipeResults n levels deep (built by the real encoder)
+		n := 0
+		fmt.Sscan(strings.TrimPrefix(base, "deep:"), &n)
+		var m vivid.Message = &vivid.OnLaunch{}
+		for i := 0; i < n; i++ {
+			m = &vivid.PipeResult{Id: "p", Message: m}
+		}
+		snd, _ := actor.NewRef("10.1.1.1:7000", "/s")
+		rcv, _ := actor.NewRef("10.1.1.2:7000", "/r")
+		d, err := serialize.EncodeEnvelopWithRemoting(nil, mailbox.NewEnvelop(false, snd, rcv, m))
+		if err != nil {
+			return nil, nil, ""
+		}
+		return append([]byte{}, d...), []int{0}, "envelope"
 	case base == "view":
 		v := &cluster.ClusterView{ViewID: "v", Members: map[string]*cluster.NodeState{"a": {ID: "a", Address: "a:1", Generation: 1, LogicalClock: 1, Metadata: map[string]string{"k": "v"}}}, VersionVector: cluster.NewVersionVector().MustIncrement("a")}
 		w := messages.NewWriter()
@@ -1106,6 +1142,16 @@ type structWithInt struct {
 	B string
 }
 
+type cyclicNode struct {
+	V    uint8
+	Next *cyclicNode
+}
+
+type cyclicHolder struct {
+	A uint8
+	S []any
+}
+
 type structWithIface struct {
 	A uint8
 	X any
@@ -1139,6 +1185,15 @@ func unsupportedValue(kind string) (any, string) {
 		return structWithInt{A: 1, B: "x"}, ""
 	case "interface-field":
 		return structWithIface{A: 1, X: nil}, ""
+	case "cyclic-pointer":
+		// a value that refers to itself: the writer follows pointers, so it must notice (an error), not recurse for ever
+		n := &cyclicNode{V: 1}
+		n.Next = n
+		return n, ""
+	case "cyclic-slice":
+		s := make([]any, 1)
+		s[0] = s
+		return cyclicHolder{A: 1, S: s}, ""
 	case "nil-message":
 		return nil, "message"
 	case "non-pointer-message":
@@ -1321,6 +1376,10 @@ func checkC13(c *core.Ctx) {
 			}
 			cases = append(cases, totCase{ID: base + "|" + fs, Group: "fault", Base: base, Fault: fs})
 		}
+	}
+	// valid input, deeply nested: decoding must not cost memory out of proportion (one copy of the rest per level is quadratic)
+	for _, n := range core.Pick(c, []int{200, 3000}, []int{200, 3000, 20000}) {
+		cases = append(cases, totCase{ID: fmt.Sprintf("deep:%d|none", n), Group: "fault", Base: fmt.Sprintf("deep:%d", n), Fault: "none"})
 	}
 	for _, reg := range messages.VerifRegisteredMessages() {
 		// the zero value of every registered message: every pointer, interface, map and slice field is nil
